@@ -1046,3 +1046,77 @@ def rule_nil_for_empty_rule(ctx, rep, config="c-lib"):
                           "side == 0): a rule whose symbols all derived the empty string gets NIL instead of the translation of its selected symbol",
                           where=c.where(), witness=[c.where()])
     rep.floor("C03-nil-empty", "placements of the NIL node for a candidate rule", n, 1)
+
+
+def rule_origin_fresh(ctx, rep, config="c-lib"):
+    rep.rule("C03-origin-fresh", "make_parse accepts a reduce situation as a candidate when the origin set holds the rule before the nonterminal with the origin of the state "
+                                 "being expanded: it walks the transitions of the origin set and compares the origin of EACH situation found with state->orig.  The "
+                                 "value compared is made from that situation alone (its index, the distances of the origin set, the origin of the reduce situation): "
+                                 "it does not depend on what an earlier round of the same loop left behind -- a default assigned before the loop is overwritten by "
+                                 "the first start situation met and a later predicted situation inherits that origin (a candidate, and with it an ambiguity, is lost)")
+    p = ctx.prog(config)
+    f = p.fn("make_parse")
+    rep.cover(p, [f.name])
+    n = 0
+    loops = f.loops()
+    for c in f.all_insts():
+        if c.op != "icmp" or c.d["pred"] not in ("eq", "ne"):
+            continue
+        side = None
+        for (x, y) in ((0, 1), (1, 0)):
+            lp = loaded_from(f, c.ops[x])
+            if lp is not None and lp.last_field() == "parse_state.orig":
+                side = y
+        if side is None:
+            continue
+        Ls = [L for L in loops if c.block.name in L["body"]]
+        if not Ls:
+            continue
+        L = min(Ls, key=lambda l_: len(l_["body"]))
+        # the loop walks an array of situation indices
+        n += 1
+        key = "make_parse/origin-of-each-candidate#%d" % n
+        hphis = [i for i in f.bmap[L["header"]].insts if i.op == "phi"]
+
+        def is_induction(ph):
+            for (v, pb) in ph.d["incoming"]:
+                if pb in L["body"]:
+                    li = expr.lin(f, v, 0, 0)
+                    if li.t.get("phi#%d" % ph.id) == 1 and len(li.t) == 1 and li.c != 0:
+                        return True
+            return False
+        carried = None
+        work, seen = [c.ops[side]], set()
+        while work:
+            o = strip_casts(f, work.pop())
+            if o.get("k") != "i" or o["v"] in seen:
+                continue
+            seen.add(o["v"])
+            i = f.insts.get(o["v"])
+            if i is None or i.block.name not in L["body"]:
+                continue
+            if i.op == "phi" and i.block.name == L["header"]:
+                if not is_induction(i):
+                    carried = i
+                continue
+            if i.op == "phi":
+                work.extend(v for (v, _) in i.d["incoming"])
+            elif i.op == "load":
+                work.append(i.ops[0])
+            elif i.op == "getelementptr":
+                work.append(i.d["base"])
+                for st in i.d["path"]:
+                    for k_ in ("idx", "ptr"):
+                        if isinstance(st.get(k_), dict):
+                            work.append(st[k_])
+            elif i.is_call():
+                work.extend(i.args)
+            else:
+                work.extend(x_ for x_ in (i.ops or []) if isinstance(x_, dict))
+        if carried is None:
+            rep.ok("C03-origin-fresh", key, sample={"comparison": c.where()})
+        else:
+            rep.violation("C03-origin-fresh", key, "the origin compared with state->orig can be the one computed for an earlier situation of the same walk (a value carried "
+                          "round the loop): a situation without distance of its own -- a predicted one -- is judged by the origin of the start situation met before "
+                          "it, and a genuine candidate is dropped (one derivation lost, *ambiguous_p stays 0)", where=c.where(), witness=[c.where()])
+    rep.floor("C03-origin-fresh", "comparisons of a situation's origin with the origin of the state", n, 1)
